@@ -10,9 +10,13 @@ WorldsOfDepth(n, keyOpts, anchorSets) ==
 \* quick: depth 2 and 3, one key, root anchor (+ leaf anchor at depth 3)
 MC_WorldsSmall == WorldsOfDepth(2, {1}, {{1}}) \cup WorldsOfDepth(3, {1}, {{1}, {1, 3}})
 \* two-key zones at depth 2 and 3 (all zones with the same number of keys is enough for the key rules)
-MC_WorldsKeys ==
-    {wd \in WorldsOfDepth(2, {1, 2}, {{1}, {1, 2}}) \cup WorldsOfDepth(3, {1, 2}, {{1}}) :
-        \A i \in 1..wd.n : wd.signed[i] \/ wd.keys[i] = 1}
+UnsignedOneKey(S) == {wd \in S : \A i \in 1..wd.n : wd.signed[i] \/ wd.keys[i] = 1}
+MC_WorldsKeys  == UnsignedOneKey(WorldsOfDepth(2, {1, 2}, {{1}, {1, 2}}))
+MC_WorldsKeys3 == UnsignedOneKey(WorldsOfDepth(3, {1, 2}, {{1}}))
+MC_AsIs == {"keys-by-ds-only", "any-signer", "ns-finds-cut"}
+\* the AsIs configuration: two faults (the NS rule needs two) on two worlds
+MC_WorldsAsIs == {wd \in WorldsOfDepth(3, {1}, {{1}}) :
+                     /\ wd.signed = <<TRUE, TRUE, TRUE>> /\ wd.link[2] = "ds" /\ wd.link[3] \in {"ds", "nods"}}
 MC_WorldsDeep == WorldsOfDepth(4, {1}, {{1}, {1, 3}})
 
 MC_Queries == QueryKinds
